@@ -2,6 +2,7 @@ package main
 
 import (
 	"encoding/base64"
+	"encoding/json"
 	"fmt"
 
 	"github.com/brocaar/lorawan"
@@ -375,6 +376,20 @@ func bytesEvent(c *ctx, b []byte) M {
 	if tres == "" {
 		ev["tval"] = phyToVal(&pt)
 	}
+	// a receiver that logs the frame and looks at its MIC before it forwards it: inspecting is not changing
+	if len(b)%2 == 0 {
+		observeFast(func() error {
+			p.MarshalJSON()
+			json.Marshal(&p)
+			p.MarshalText()
+			var k lorawan.AES128Key
+			if mp, ok := p.MACPayload.(*lorawan.MACPayload); ok && mp != nil {
+				p.ValidateUplinkDataMIC(lorawan.LoRaWAN1_1, 0, 0, 0, k, k)
+				p.ValidateDownlinkDataMIC(lorawan.LoRaWAN1_1, 0, k)
+			}
+			return nil
+		})
+	}
 	var re []byte
 	rres, _ := observeFast(func() error {
 		var err error
@@ -382,6 +397,19 @@ func bytesEvent(c *ctx, b []byte) M {
 		return err
 	})
 	ev["rerr"] = rres
+	// when the receiver is done with the frame it re-targets it in place (its own value: the port and the counter are
+	// written through the decoded fields); no later frame may be affected by that
+	defer func() {
+		if mp, ok := p.MACPayload.(*lorawan.MACPayload); ok && mp != nil {
+			if mp.FPort != nil {
+				*mp.FPort ^= 0x5a
+			}
+			mp.FHDR.FCnt ^= 0xffff
+			for i := range mp.FHDR.DevAddr {
+				mp.FHDR.DevAddr[i] ^= 0xa5
+			}
+		}
+	}()
 	if rres == "" {
 		ev["re"] = bs(re)
 		var p2 lorawan.PHYPayload
